@@ -219,6 +219,8 @@ CLI = {
     "traj:save_table_updir": ("traj", ["tum", "a.txt", "b.txt", "--save_table", "sub/../out.csv"], "evo/main_traj.py", "save_df_as_table", ["out.csv"]),
     "config:generate_out": ("config", ["generate", "--align", "--plot_mode", "xz", "--downsample", "500", "-o", "out.json"],
                             "evo/main_config.py", "<generate>", ["out.json"]),
+    "config:generate_out_noext": ("config", ["generate", "--align", "--n_to_align", "-1", "-o", "my_config"],
+                                  "evo/main_config.py", "<generate>", ["my_config"]),
 }
 _FIGS = {}
 
@@ -759,6 +761,12 @@ def evaluate(ctx, cases):
                 else:
                     for t in targets:
                         Path(t).write_bytes(PRE.get(pre, SENTINEL))
+            # neighbours of the targets (the name with an extension appended, a backup name): existing files that nobody was
+            # asked about must come through every run byte for byte (clause other-files-untouched)
+            for t in targets:
+                for sib in ([t + ".json"] if not t.endswith(".json") else []) + [t + "~"]:
+                    if not Path(sib).exists():
+                        Path(sib).write_bytes(SENTINEL)
             before = e.snapshot()
             answers = [case["answer"]] * len(targets)
             prompts, exc, _ = run_cli(e, cid, bool(case["no_warnings"]), answers, [case.get("title_answer", "y")])
